@@ -143,9 +143,11 @@ fn eval_unary_expr(
     context: &mut model::Context,
 ) -> error::Result<model::Value> {
     let value = eval_union_expr(uni.value(), node.clone(), context)?;
-    let inv = uni.inv().len() % 2;
-    if inv == 0 {
+    if uni.inv().is_empty() {
         Ok(value)
+    } else if uni.inv().len() % 2 == 0 {
+        // the operand of a unary minus is converted to a number: --'1' is 1, not '1'
+        Ok(-(-value))
     } else {
         Ok(-value)
     }
